@@ -3,14 +3,21 @@
 (* which outputs each party blinds) x every choice of the last blinder x every order of the      *)
 (* others x with / without a wire hop between steps, with the projected state after each step.    *)
 EXTENDS PsetBlind, Json, IOUtils
-I(a, c) == [asset |-> a, conf |-> c]
+I(a, c) == [asset |-> a, conf |-> c, iss |-> "none"]
+\* an input carrying an explicit issuance: "amt" (asset only), "amt+tok", "tok" (reissuance tokens only, no asset amount);
+\* the issued asset / tokens are the outputs "N" / "T" of the issuing party
+J(a, c, iss) == [asset |-> a, conf |-> c, iss |-> iss]
 Templates ==
   { [ins |-> << I("A", TRUE) >>, outs |-> << "A" >>],
     [ins |-> << I("A", TRUE) >>, outs |-> << "A", "A" >>],
     [ins |-> << I("A", FALSE) >>, outs |-> << "A" >>],
     [ins |-> << I("A", TRUE), I("B", TRUE) >>, outs |-> << "A", "B" >>],
     [ins |-> << I("B", TRUE), I("A", FALSE) >>, outs |-> << "B" >>],
-    [ins |-> << I("A", TRUE), I("A", TRUE) >>, outs |-> << "A" >>] }
+    [ins |-> << I("A", TRUE), I("A", TRUE) >>, outs |-> << "A" >>],
+    [ins |-> << J("A", TRUE, "amt") >>, outs |-> << "A", "N" >>],
+    [ins |-> << J("A", TRUE, "tok") >>, outs |-> << "A", "T" >>],
+    [ins |-> << J("A", FALSE, "amt+tok") >>, outs |-> << "N", "T" >>],
+    [ins |-> << I("B", TRUE), J("A", TRUE, "tok") >>, outs |-> << "T" >>] }
 MaxP == atoi(IOEnv.GEN_PARTIES)
 Structs == UNION { [1..n -> Templates] : n \in 1..MaxP }
 Orders(n, lp) == { o \in [1..n -> 1..n] : (\A i, j \in 1..n : i # j => o[i] # o[j]) /\ o[n] = lp }
